@@ -24,6 +24,7 @@ func hTag(c vc.VerifiableCredential) string {
 
 // hOptInt is an optional JSON integer member: absent, or any int.
 func hOptInt(name string) *int {
+	vTag("has_" + name)
 	if !vBool() {
 		return nil
 	}
@@ -103,16 +104,12 @@ func hCheckApply(id string, r SubmissionRequirement, members [][]string, result 
 			min = *r.Min
 		}
 		if r.Max != nil && min > *r.Max {
-			vClass("pick min>max (unsatisfiable)")
 			vAssert(err != nil, id+".minmax_unsat_is_error: pick with min > max returns a selection (no selection can satisfy it)")
 			return
 		}
 		if available < min {
 			vAssert(err != nil, id+".min_short_is_error: fewer members than min available but a selection is returned")
 		} else {
-			if r.Max != nil && *r.Max == 0 {
-				vClass("pick max=0")
-			}
 			vAssert(err == nil, id+".min_met_is_selection: at least min members available but no selection is returned")
 			vAssert(selected >= min, id+".min_respected: pick selects fewer than min members")
 			vAssert(r.Max == nil || selected <= *r.Max, id+".max_respected: pick selects more than max members")
@@ -122,6 +119,7 @@ func hCheckApply(id string, r SubmissionRequirement, members [][]string, result 
 
 func hRequirement() SubmissionRequirement {
 	r := SubmissionRequirement{Name: "r", From: "A"}
+	vTag("rule_all")
 	if vBool() {
 		r.Rule = "all"
 	} else {
@@ -130,8 +128,16 @@ func hRequirement() SubmissionRequirement {
 	r.Count = hOptInt("count")
 	r.Min = hOptInt("min")
 	r.Max = hOptInt("max")
-	if r.Rule == "pick" && r.Count == nil && r.Max == nil {
+	// one witness class per path (root causes of the findings on the unchanged tree)
+	switch {
+	case r.Rule == "pick" && r.Count == nil && r.Max == nil:
 		vClass("pick without count and max")
+	case !hRuleNumbersSchemaValid(r):
+		vClass("numbers outside schema") // only panic freedom and the structural assertions are claimed
+	case r.Rule == "pick" && r.Count == nil && r.Min != nil && *r.Min > *r.Max:
+		vClass("pick min>max (unsatisfiable)")
+	case r.Rule == "pick" && r.Count == nil && *r.Max == 0:
+		vClass("pick max=0")
 	}
 	return r
 }
@@ -143,10 +149,12 @@ func H12a() {
 	r := hRequirement()
 	tags := []string{"a", "b", "c", "d", "e", "f", "g", "h", "i", "j"}
 	members := make([][]string, n)
+	vTag("single_credentials")
 	if vBool() {
 		vCover("from")
 		list := make([]selectableVC, n)
 		for i := 0; i < n; i++ {
+			vTag("member_available")
 			if vBool() {
 				list[i] = selectableVC(hVC(tags[2*i]))
 				members[i] = []string{tags[2*i]}
@@ -158,6 +166,7 @@ func H12a() {
 		vCover("from_nested")
 		list := make([]selectableVCList, n)
 		for i := 0; i < n; i++ {
+			vTag("member_size")
 			for j, k := 0, vLen(0, 2); j < k; j++ {
 				list[i] = append(list[i], hVC(tags[2*i+j]))
 				members[i] = append(members[i], tags[2*i+j])
